@@ -80,6 +80,33 @@ Fixpoint lts_trace (pending : list (list act)) (sched : list nat) : list act :=
     end
   end.
 
+(* ---- Get among the membership actions ---------------------------------------------------------
+   Get(v) holds the READ lock from before the slot lookup until after the member is picked (the
+   two evaluations of the key's repr included): against the write-locked critical sections it is ONE
+   atomic step.  A concurrent execution with lookups is a sequence of [cact]; [grun] returns the
+   final state and the answers of the lookups, in order. *)
+Inductive cact :=
+| CAct (a : act)
+| CGet (hp ihp : Z).
+
+Fixpoint grun (s : state) (l : list cact) : state * list gres :=
+  match l with
+  | [] => (s, [])
+  | CAct a :: l' => grun (astep s a) l'
+  | CGet hp ihp :: l' => let r := grun s l' in (fst r, get s hp ihp :: snd r)
+  end.
+
+Definition membership (l : list cact) : list act :=
+  flat_map (fun c => match c with CAct a => [a] | CGet _ _ => [] end) l.
+
+(* for every lookup of the execution: the membership actions executed before its step, and its key *)
+Fixpoint gpoints (l : list cact) (done : list act) : list (list act * (Z * Z)) :=
+  match l with
+  | [] => []
+  | CAct a :: l' => gpoints l' (done ++ [a])
+  | CGet hp ihp :: l' => (done, (hp, ihp)) :: gpoints l' done
+  end.
+
 Definition finished (c : config) : bool := forallb (fun l => match l with [] => true | _ => false end) (fst c).
 
 End WithHash.
